@@ -31,7 +31,10 @@ From GPA Require Export SetupFs.
 Inductive verb := VStop | VStart | VEnable | VDisable | VUnmask | VDaemonReload.
 
 Inductive event :=
-| ECall (v : verb)            (* `systemctl <verb> [azure-proxy-agent]` *)
+| ECall (v : verb)            (* `systemctl <verb> [azure-proxy-agent]` has RETURNED: the code waits for
+                                 Command::output(), so an invocation is one atomic event of the log; the
+                                 correspondence run checks that on the real tool nothing happens between
+                                 the begin and the end of an invocation (stand-in: B / E lines) *)
 | EWrite (l : loc)            (* fs::copy created / replaced the file at l *)
 | ERemove (l : loc)           (* fs::remove_file removed the file at l *)
 | ERemoveBackupDir.           (* fs::remove_dir_all(<setup>/ProxyAgent/Backup) *)
